@@ -194,7 +194,8 @@ def build(case):
     V, sos, N, tab = table_of(case)
     with warnings.catch_warnings():
         warnings.simplefilter("ignore")
-        lm = LookupLanguageModel(V, sos, prob_dicts_of(N, tab))
+        # destructive: the builder may consume / rewrite the dictionaries it is given instead of copying them - the model must be the same
+        lm = LookupLanguageModel(V, sos, prob_dicts_of(N, tab), destructive=True) if case.get("destructive") else LookupLanguageModel(V, sos, prob_dicts_of(N, tab))
     return lm, Katz(V, sos, N, tab)
 
 
@@ -729,6 +730,14 @@ def _configs2():
 
 
 def cases_full(ctx):
+    """the table grids below, every fifth table once more with destructive=True"""
+    for i, c in enumerate(_cases_full_tables(ctx)):
+        yield c
+        if i % 5 == 0:
+            yield dict(c, destructive=True)
+
+
+def _cases_full_tables(ctx):
     # (a) one symbol in all: V=1, sos=0; every order up to 5, three states per gram
     for N in range(1, 6):
         yield from enum_tables(1, 0, N, three_state_upto=N)
